@@ -199,6 +199,26 @@ def run(ctx) -> None:
                 for fld in ("wk", "bk_grid"):
                     sl, _, _ = mdu.backward_slice(kw[fld], mdu.node_of_expr(ctor[0]))
                     okf = okf and any(e is w[0] or (isinstance(e, ast.Call) and call_name(e).endswith(("find_bk_vectors", "get_shell_weights"))) for e in sl)
+            # the weights are solved for b-vectors in Cartesian coordinates of ONE lattice; the object recomputes its Cartesian b-vectors from the lattice it is
+            # given: both must be the same lattice
+            rl_ = kw.get("recip_lattice") if okf else None
+            if rl_ is not None and isinstance(rl_, ast.Name):
+                solver_calls_ = [x for x in ast.walk(m.node) if isinstance(x, ast.Call) and call_name(x).endswith(("get_shell_weights", "k_to_shells"))]
+                lats_ = set()
+                for sc_ in solver_calls_:
+                    for a_ in list(sc_.args) + [k_.value for k_ in sc_.keywords]:
+                        sl_, _, _ = mdu.backward_slice(a_, mdu.node_of_expr(sc_))
+                        for e_ in list(sl_) + [a_]:
+                            for b_ in ast.walk(e_):
+                                if isinstance(b_, ast.BinOp) and isinstance(b_.op, ast.MatMult) and isinstance(b_.right, ast.Name) and "lattice" in b_.right.id:
+                                    lats_.add(b_.right.id)
+                                elif isinstance(b_, ast.Call) and isinstance(b_.func, ast.Attribute) and b_.func.attr == "dot" and b_.args and isinstance(b_.args[0], ast.Name) \
+                                        and "lattice" in b_.args[0].id:
+                                    lats_.add(b_.args[0].id)
+                if lats_:
+                    r1.check(lats_ == {rl_.id}, f"{mname}: the b-vectors are made Cartesian with the lattice the object is built with", m, ctor[0],
+                             f"{mname} solves the shell weights for b-vectors converted with `{sorted(lats_)}` but builds the object with `recip_lattice={rl_.id}`: the stored "
+                             f"weights belong to another lattice than the stored (recomputed) Cartesian b-vectors, so Σ_b w_b b bᵀ ≠ 1 whenever the two lattices differ")
             kg_ = kw.get("kpt_grid") if okf else None
             if kg_ is not None:
                 kgr_ = MS.resolve(kg_, mdu.node_of_expr(ctor[0]))
